@@ -60,6 +60,9 @@ type RPlan struct {
 	Scenario string    `json:"scenario,omitempty"`
 	// FinalLost: after everything, at quiescence, issue lost(65535) to read back the retained window.
 	FinalLost bool `json:"final_lost,omitempty"`
+	// FailAt: indices (counting every routing indication handed to the socket, from 0) whose
+	// transmission fails - this is how a retransmission can fail, not only an original transmission.
+	FailAt []int `json:"fail_at,omitempty"`
 }
 
 // REv is one trace entry; T/T2 are nanoseconds since the start (T2: exit stamp of a transmission).
@@ -144,6 +147,8 @@ type RSim struct {
 	start    time.Time
 	evs      []REv
 	failTags map[int]bool
+	failAt   map[int]bool
+	nInd     int
 	inFlight int32 // Sends between send> and send<
 	gate     sync.RWMutex
 	outCount int32
@@ -256,6 +261,10 @@ func (s *RSim) Run() *RResult {
 	res := &RResult{}
 	s.start = time.Now()
 	s.failTags = map[int]bool{}
+	s.failAt = map[int]bool{}
+	for _, k := range p.FailAt {
+		s.failAt[k] = true
+	}
 	for _, lane := range p.Senders {
 		for _, st := range lane {
 			if st.Fail {
@@ -274,6 +283,10 @@ func (s *RSim) Run() *RResult {
 				err = errScripted
 				delete(s.failTags, e.Tag) // only the original transmission fails
 			}
+			if s.failAt[s.nInd] {
+				err = errScripted
+			}
+			s.nInd++
 			s.mu.Unlock()
 		} else {
 			e.Note = fmt.Sprintf("%T", f.Svc)
